@@ -696,6 +696,9 @@ def t_small(E):
             if isinstance(obj, VVal) and obj.t.sort() == LoopS:
                 if name == 'call_soon_threadsafe':
                     return VStub('loop.call_soon_threadsafe', lambda E_, a, k: (log.append(('call_soon_threadsafe',) + tuple(a)), NONE)[1])
+                if name == 'call_soon':
+                    # NOT thread-safe: from another thread it neither wakes the loop nor is it safe
+                    return VStub('loop.call_soon', lambda E_, a, k: (log.append(('call_soon',) + tuple(a)), NONE)[1])
                 if name == 'create_task':
                     return VStub('loop.create_task', lambda E_, a, k: Obj('ATask', dict(coro=a[0], loop=obj)))
             return prev(E_, obj, name, node)
@@ -805,7 +808,7 @@ def t_small(E):
             E.oblige(fs.qualname + '/ensures.the_timed_coroutine_is_the_one_given', z3.BoolVal(wf.fields['inner'] is coro),
                      props={'C08', 'C03'})
             E.oblige(fs.qualname + '/ensures.deadline_is_this_objects_timeout',
-                     _real(wf.fields['timeout']) == o.fields['timeout'].t, props={'C08'})
+                     _real(wf.fields['timeout']) == o.fields['timeout'].t, props={'C08', 'C15'})
             E.oblige(fs.qualname + '/ensures.task_belongs_to_the_instances_loop', z3.BoolVal(t.fields['loop'] is o.fields['loop']),
                      props={'C08', 'C03', 'C07'})
 
@@ -829,7 +832,8 @@ def t_small(E):
         okw = len(a_) == 2 and isinstance(a_[0], VCoro) and a_[0].func.qualname.endswith('.wait') and \
             a_[0].kwargs.get('cancel') is cflag and a_[1] is o.fields['loop']
         E.oblige(fwa.qualname + '/ensures.awaits_wait(cancel)_on_the_buffers_own_loop_through_ensure_aw',
-                 z3.BoolVal(bool(okw)), props={'C07'})
+                 z3.BoolVal(bool(okw)), props={'C07', 'C08'},
+                 detail='cancel=False must reach wait(): nobody asked for a flush, the quiet period runs its course')
         E.specs.pop(MOD + '.ensure_aw', None)
 
         # ---- _waiter: forever, one _process_queue at a time, awaited inline (serial calls)
@@ -961,7 +965,7 @@ def t_wait(E):
 
 
 TASKS.update({
-    'buffer.small_functions': (t_small, {'C03', 'C07', 'C08'}),
+    'buffer.small_functions': (t_small, {'C03', 'C07', 'C08', 'C15'}),
     'buffer.wait': (t_wait, {'C07'}),
 })
 
